@@ -1,6 +1,8 @@
 package main
 
 import (
+	"fmt"
+
 	"verifharness/internal/c03"
 	"verifharness/internal/ev"
 )
@@ -24,6 +26,13 @@ func init() {
 		}
 		c03.DriveC04(w, c03.Opts{Tier: a.Tier, Seed: a.Seed, Shard: a.Shard, Shards: a.Shards})
 		return nil
+	})
+	// vh replay C03 -part vmstack -in <vectors of VmStackApi_Gen> -out <events for VmStackApi_Trace>
+	register("replay:C03", func(a Args, w *ev.Writer) error {
+		if a.Part != "vmstack" {
+			return fmt.Errorf("unknown part %q", a.Part)
+		}
+		return c03.ReplayVmStack(a.In, w)
 	})
 	register("drive:C03", func(a Args, w *ev.Writer) error {
 		c03.Drive(w, c03.Opts{Tier: a.Tier, Seed: a.Seed, Shard: a.Shard, Shards: a.Shards})
